@@ -11,6 +11,7 @@ import (
 	"strings"
 	"testing"
 
+	"github.com/sassoftware/go-rpmutils"
 	"pgregory.net/rapid"
 )
 
@@ -51,6 +52,33 @@ func checkTarShape(f, where string, es []TarEntry, _ []byte, dotSlash bool, vs *
 		if e.Typeflag == '5' {
 			dirs[abs] = true
 		}
+	}
+}
+
+// rpmutilsCrossCheck reads the package with sassoftware/go-rpmutils (a reader nfpm's writers never call)
+// and compares its view of the file list with the harness parser's.
+func rpmutilsCrossCheck(raw []byte, d *Decoded, vs *vlist) {
+	r, err := rpmutils.ReadRpm(bytes.NewReader(raw))
+	if err != nil {
+		vs.add("C04.rpm.rpmutils-rejects", "rpm", "go-rpmutils cannot read the package: %v", err)
+		return
+	}
+	fis, err := r.Header.GetFiles()
+	if err != nil {
+		if len(d.Payload) > 0 {
+			vs.add("C04.rpm.rpmutils-rejects", "rpm", "go-rpmutils cannot list the files: %v", err)
+		}
+		return
+	}
+	var a, b []string
+	for _, fi := range fis {
+		a = append(a, path.Clean(fi.Name()))
+	}
+	for _, e := range d.Payload {
+		b = append(b, e.Abs)
+	}
+	if strings.Join(a, "\x00") != strings.Join(b, "\x00") {
+		vs.add("C04.rpm.readers-disagree", "rpm", "go-rpmutils lists %v, the harness parser lists %v", a, b)
 	}
 }
 
@@ -242,6 +270,9 @@ func checkC04Format(c *BuildCase, f string, d *Decoded, raw []byte, vs *vlist) {
 		}
 		if c.Signed != (r.Sig.Has(268) && r.Sig.Has(1002)) {
 			vs.add("C04.rpm.signature-tags", f, "signing configured=%v, RSAHEADER present=%v, PGP present=%v", c.Signed, r.Sig.Has(268), r.Sig.Has(1002))
+		}
+		if thorough() {
+			rpmutilsCrossCheck(raw, d, vs)
 		}
 		// lead: type 0 (binary), major 3
 		if r.Lead[4] != 3 {
